@@ -257,6 +257,9 @@ enum Edit {
     DeleteExport,
     AddEntities,
     NameEverything,
+    /// a built function whose blocks carry their type as a type id (`InstrSeqType::MultiValue`) for
+    /// signatures the compact block-type encoding could also express: `() -> ()` and `() -> T`
+    AddTypedBlocks,
 }
 
 fn apply_edit(m: &mut Module, e: Edit, rng: &mut Rng) {
@@ -276,6 +279,30 @@ fn apply_edit(m: &mut Module, e: Edit, rng: &mut Rng) {
             }
             let id = b.finish(vec![l], &mut m.funcs);
             m.exports.add("verif_added", id);
+        }
+        Edit::AddTypedBlocks => {
+            let t = *rng.pick(&[ValType::I32, ValType::I64, ValType::F32, ValType::F64]);
+            let unit = m.types.add(&[], &[]);
+            let one = m.types.add(&[], &[t]);
+            let mut b = FunctionBuilder::new(&mut m.types, &[ValType::F64, ValType::I64], &[ValType::I64]);
+            let (p0, p1) = (m.locals.add(ValType::F64), m.locals.add(ValType::I64));
+            {
+                let mut body = b.func_body();
+                body.block(walrus::ir::InstrSeqType::MultiValue(unit), |x| {
+                    x.local_get(p0).drop();
+                });
+                body.block(walrus::ir::InstrSeqType::MultiValue(one), |x| {
+                    match t {
+                        ValType::I32 => x.i32_const(1),
+                        ValType::I64 => x.i64_const(2),
+                        ValType::F32 => x.f32_const(3.0),
+                        _ => x.f64_const(4.0),
+                    };
+                });
+                body.drop().local_get(p1);
+            }
+            let id = b.finish(vec![p0, p1], &mut m.funcs);
+            m.exports.add("verif_typed_blocks", id);
         }
         Edit::DeleteExport => {
             // (an export can be the only thing that makes a `ref.func` operand a declared function;
@@ -331,6 +358,7 @@ fn apply_edit(m: &mut Module, e: Edit, rng: &mut Rng) {
 #[derive(Default)]
 struct Stats {
     with_custom_roots: usize,
+    post_gc_edits_reusing_a_collected_type: usize,
     cases: usize,
     samples: usize,
     removed_entities: usize,
@@ -456,6 +484,60 @@ fn run_wasm(case: &str, wasm: &[u8], edit: Edit, names_on: bool, roots: &[Ent], 
         }
     }
 
+    // ---- C02: a well-formed edit made *after* the pass: a built function whose signature (also used
+    // as a block type) is one the pass has just collected, if there is one
+    if prop == "C02" {
+        let kept: HashSet<&(Vec<String>, Vec<String>)> = b.types.iter().collect();
+        let collected: Vec<&(Vec<String>, Vec<String>)> = a.types.iter().filter(|t| !kept.contains(t)).collect();
+        let vt = |s: &String| -> Option<ValType> {
+            Some(match s.as_str() {
+                "i32" => ValType::I32,
+                "i64" => ValType::I64,
+                "f32" => ValType::F32,
+                "f64" => ValType::F64,
+                "v128" => ValType::V128,
+                "funcref" => ValType::Ref(walrus::RefType::Funcref),
+                "externref" => ValType::Ref(walrus::RefType::Externref),
+                _ => return None,
+            })
+        };
+        let sig: Option<(Vec<ValType>, Vec<ValType>)> = collected.first().and_then(|t| Some((t.0.iter().map(vt).collect::<Option<Vec<_>>>()?, t.1.iter().map(vt).collect::<Option<Vec<_>>>()?)));
+        let (ps, rs) = sig.clone().unwrap_or((vec![ValType::I64, ValType::F32], vec![ValType::F32, ValType::I64]));
+        if sig.is_some() {
+            stats.post_gc_edits_reusing_a_collected_type += 1;
+        }
+        let r = out::catch(|| {
+            let mut fb = FunctionBuilder::new(&mut m.types, &ps, &rs);
+            let args: Vec<_> = ps.iter().map(|t| m.locals.add(*t)).collect();
+            let bt = walrus::ir::InstrSeqType::new(&mut m.types, &ps, &rs);
+            {
+                let mut body = fb.func_body();
+                for l in &args {
+                    body.local_get(*l);
+                }
+                body.block(bt, |x| {
+                    x.unreachable();
+                });
+            }
+            let id = fb.finish(args, &mut m.funcs);
+            m.exports.add("verif_added_after_gc", id);
+            m.emit_wasm()
+        });
+        match r {
+            Err(p) => fails.push(("C02:edit-after-gc-emit-panic".into(), format!("after GC, adding a built function of signature {:?} -> {:?} and emitting panicked: {}", ps, rs, &p[..p.len().min(200)].replace('\n', " ")))),
+            Ok(bytes2) => {
+                if let Err(e) = decode::validate(&bytes2, decode::walrus_features(false)) {
+                    fails.push(("C02:edit-after-gc-invalid-output".into(), format!("after GC, adding a built function of signature {:?} -> {:?} yields an invalid module: {}", ps, rs, e)));
+                }
+                // the later passes of this case look at the module the first pass left: undo the edit
+                let id = m.exports.iter().find(|e| e.name == "verif_added_after_gc").map(|e| e.id());
+                if let Some(id) = id {
+                    m.exports.delete(id);
+                }
+                let _ = out::catch(|| walrus::passes::gc::run(&mut m));
+            }
+        }
+    }
     // ---- C07: precision and idempotence
     for f in precision(&b) {
         fails.push(f);
@@ -588,6 +670,7 @@ pub fn main(seed: u64, tier: &str, only: Option<&str>) {
             "DeleteExport" => Edit::DeleteExport,
             "AddEntities" => Edit::AddEntities,
             "NameEverything" => Edit::NameEverything,
+            "AddTypedBlocks" => Edit::AddTypedBlocks,
             _ => Edit::None,
         };
         let mut rng = Rng::new(seed, 0);
@@ -606,7 +689,15 @@ pub fn main(seed: u64, tier: &str, only: Option<&str>) {
         g.extern_elem_global = true;
         let (wasm, _) = gen::gen_valid(&mut rng, &g);
         // edits only for C02 (the property that quantifies over them); others see plain modules
-        let edit = if prop == "C02" { [Edit::None, Edit::AddFunc, Edit::DeleteExport, Edit::AddEntities, Edit::NameEverything, Edit::None][case % 6] } else if case % 5 == 4 { Edit::DeleteExport } else { Edit::None };
+        let edit = if prop == "C02" {
+            [Edit::None, Edit::AddFunc, Edit::DeleteExport, Edit::AddEntities, Edit::NameEverything, Edit::None, Edit::AddTypedBlocks][case % 7]
+        } else if case % 5 == 4 {
+            Edit::DeleteExport
+        } else if prop == "C07" && case % 5 == 2 {
+            Edit::AddTypedBlocks
+        } else {
+            Edit::None
+        };
         // every third unedited module carries a custom section that declares one to three roots
         // (functions, tables, memories, globals: what `Roots` lets a custom section push)
         let mut roots: Vec<Ent> = vec![];
@@ -633,6 +724,9 @@ pub fn main(seed: u64, tier: &str, only: Option<&str>) {
     }
     out::stat("gc.cases_with_custom_section_roots", stats.with_custom_roots);
     out::stat("gc.cases", stats.cases);
+    if prop == "C02" {
+        out::stat("gc.post_gc_edits_reusing_a_collected_type", stats.post_gc_edits_reusing_a_collected_type);
+    }
     out::stat("gc.entities_kept", stats.kept_entities);
     out::stat("gc.entities_removed", stats.removed_entities);
     for (k, v) in &stats.edits {
